@@ -95,14 +95,16 @@ PROPS["C11"] = dict(
     title="Kustomizations compose transparently (wrapping, relocation, reordering)",
     modules=["Kust.Props.C11"],
     theorems=["Kust.C11.legacy_order_input_independent", "Kust.C11.legacy_sort_idempotent", "Kust.C11.order_lists_wellformed",
-              "Kust.C11.affixName_eq", "Kust.C11.affix_accumulation", "Kust.C11.skip_list_expected", "Kust.sort_perm_invariant", "Kust.mergeSort_spec"],
+              "Kust.C11.affixName_eq", "Kust.C11.affix_accumulation", "Kust.C11.skip_list_expected", "Kust.sort_perm_invariant", "Kust.mergeSort_spec",
+              "Kust.C11.empty_layer_noop", "Kust.C11.wrap_transparent", "Kust.C11.inner_wrap_transparent", "Kust.C11.layers_append"],
     components=["res.legacysort", "res.layers"],
     oracle=True,
     n_corr={"quick": 2000, "thorough": 20000}, n_oracle={"quick": 150, "thorough": 2000},
     technique="Lean 4 proof (any sorting function is permutation-invariant under the transliterated legacy comparator; affix accumulation by induction over layers) + comparator correspondence through real legacy-sorted builds + wrap/move/permute oracle",
     level_text="Theorems: for every sorting function meeting the sort specification and every permutation of an id list with distinct sort keys the legacy "
-               "order is the same list; names accumulate as P_outer..P_inner+name+S_inner..S_outer for any number of layers. wrap/move equalities are "
-               "decided by the oracle on whole builds (loader and accumulation are not modelled).",
+               "order is the same list; names accumulate as P_outer..P_inner+name+S_inner..S_outer for any number of layers; a layer without directives is the identity on a resource (bookkeeping included), "
+               "so wrapping in any number of directive-free overlays, outside or inside, gives every resource what the wrapped tree gives it. Relocation and the "
+               "whole-build wrap/move equalities are decided by the oracle (loader and accumulation are not modelled).",
     level_note=COMMON_NOTE + "Go's sort is specified (SortSpec), not modelled; antisymmetry of the comparator on the ids is a hypothesis (checked by decide on samples).",
     assumptions=["distinct ids have distinct legacy sort keys (AntisymmOn)", "wrap/move transparency rests on the oracle"],
     design_ref="DESIGN.md §5 C11",
